@@ -217,13 +217,13 @@ func VerifC11_routing() {
 	if vfChoice("table-error", 2) == 1 {
 		vfAssert(pos(d0) >= 0, "earlier-table-error-still-reported-once")
 	}
-	// AppendNewRow afterwards must not disturb the list either
-	before, raisedBefore := len(t.Errors()), len(raised)
-	t.AppendNewRow()
-	vfAssert(len(t.Errors()) == before+len(raised)-raisedBefore, "append-new-row-adds-only-newly-raised-errors")
 	for _, cb := range cbs {
 		for i := 1; i < len(cb.mine); i++ {
 			vfAssert(pos(cb.mine[i-1]) < pos(cb.mine[i]), "same-source-order-kept")
 		}
 	}
+	// AppendNewRow afterwards must not disturb the list either
+	before, raisedBefore := len(t.Errors()), len(raised)
+	t.AppendNewRow()
+	vfAssert(len(t.Errors()) == before+len(raised)-raisedBefore, "append-new-row-adds-only-newly-raised-errors")
 }
